@@ -104,6 +104,15 @@ def showRule (r : Rule) : String :=
 
 def qosOp (toks : List String) : Option String :=
   match toks with
+  | ["qfd", "unm2", hh] =>
+    -- two inputs parsed into the same variable: the parser resets the list, the result is that of the second input
+    match hh.splitOn "," with
+    | [_, h] => (hexToBytes h).map fun b => showOut (unmarshalDescs b) fun l => showList (l.map showDesc) "|"
+    | _ => none
+  | ["qr", "unm2", hh] =>
+    match hh.splitOn "," with
+    | [_, h] => (hexToBytes h).map fun b => showOut (unmarshalRules b) fun l => showList (l.map showRule) "|"
+    | _ => none
   | ["qfd", "unm", h] => do
     let b ← hexToBytes h
     pure (showOut (unmarshalDescs b) fun l => showList (l.map showDesc) "|")
